@@ -2,6 +2,7 @@
    (site ID IDX DELIMITED N)          -> ID cap=C ok=0/1 extent=E outcome=Complete|Rejected|Cut|Overrun kind=K
    (depth ID "((v+v))")               -> ID Ok D | ID Err      (nesting and token limits of the source)
    (limit ID WHICH N)                 -> ID within | ID over
+   (query ID D K)                     -> ID within | ID over   (K plain terms inside D nested parentheses)
    (div ID (pool (SYMHEX PREC)...) EXPR) -> ID <value as in drv_C03> | ID E:<err>
    (period ID Q N START DATE)         -> ID Ok S | ID Err:<class>
    (readinto ID SIZE DELIMCODE HEX)   -> ID <hex of the bytes stored, NUL excluded>
@@ -98,6 +99,8 @@ let handle line =
         | "roundto-places" -> src_roundto_places_limit | "expr-depth" -> src_parse_depth_limit
         | "expr-tokens" -> src_expr_token_limit | _ -> failwith "limit") in
     [id ^ (if within_limit lim (zatom n) then " within" else " over")]
+  | L [A "query"; A id; d; k] ->
+    [id ^ (if query_accept src_query_depth_limit src_query_term_limit (zatom d) (zatom k) then " within" else " over")]
   | L [A "period"; A id; A q; n; start; date] ->
     (match period_start src_period_zero_guard (quantum_of q) (zatom n) (zatom start) (zatom date) with
      | Ok s -> [id ^ " Ok " ^ string_of_z s]
